@@ -33,7 +33,7 @@ def cases(draw):
     s["order"] = min(s["order"], 3)
     s["kind"] = draw(st.sampled_from(KINDS))
     s["pseed"] = draw(st.integers(0, 10 ** 6))
-    s["factor"] = draw(st.sampled_from([2.0, 0.5, 3.0, 0.1, 7.25, 1e-3, 123.456]))
+    s["factor"] = draw(st.sampled_from([2.0, 0.5, 3.0, 0.1, 7.25, 1e-3, 123.456, 1e-9, 3e-13, 1e12]))
     s["vorder"] = draw(st.sampled_from(["reversed", "shuffled"]))
     s["colstyle"] = draw(st.sampled_from(["permute", "upper", "prefix", "all"]))
     return s
